@@ -130,7 +130,8 @@ impl BisyncEngine {
 
             // 9. Update state database
             if let Some(db) = state_db.as_mut() {
-                update_state(db, &resolved)?;
+                let prior_paths: Vec<PathBuf> = prior_state.keys().cloned().collect();
+                update_state(db, source, dest, &prior_paths)?;
             }
 
             (stats, errors)
@@ -357,66 +358,57 @@ fn delete_file(path: &Path) -> Result<()> {
     std::fs::remove_file(path).map_err(Into::into)
 }
 
-/// Update state database after sync
+/// Update state database after sync.
+///
+/// The database must describe, for every path, the version that both sides agreed on when they
+/// were last in sync -- that is what the next run compares each side with. So after the actions
+/// have been executed both trees are looked at again:
+/// - a path that now exists on both sides with the same content gets a row for EACH side, with
+///   that side's own current size and mtime (a copy has the time of the copy, not the original's);
+/// - a path that is gone on both sides loses its rows;
+/// - every other path (an action failed, a conflict was left for a later run) keeps the rows it
+///   had, so the next run still knows what the common version was.
 fn update_state(
     state_db: &mut BisyncStateDb,
-    resolved: &ResolvedChanges,
+    source_root: &Path,
+    dest_root: &Path,
+    prior_paths: &[PathBuf],
 ) -> Result<()> {
     let now = SystemTime::now();
 
-    for action in &resolved.actions {
-        match action {
-            SyncAction::CopyToSource(entry) => {
-                // File now exists on both sides with same content
-                let state = SyncState {
-                    path: entry.relative_path.clone(),
-                    side: Side::Source,
-                    mtime: entry.modified,
-                    size: entry.size,
-                    checksum: None,
-                    last_sync: now,
-                };
-                state_db.store(&state)?;
-            }
-            SyncAction::CopyToDest(entry) => {
-                let state = SyncState {
-                    path: entry.relative_path.clone(),
-                    side: Side::Dest,
-                    mtime: entry.modified,
-                    size: entry.size,
-                    checksum: None,
-                    last_sync: now,
-                };
-                state_db.store(&state)?;
-            }
-            SyncAction::DeleteFromSource(path) => {
-                state_db.delete(path)?;
-            }
-            SyncAction::DeleteFromDest(path) => {
-                state_db.delete(path)?;
-            }
-            SyncAction::RenameConflict { source, dest, .. } => {
-                // Both files kept with new names - update state
-                let source_state = SyncState {
-                    path: source.relative_path.clone(),
-                    side: Side::Source,
-                    mtime: source.modified,
-                    size: source.size,
-                    checksum: None,
-                    last_sync: now,
-                };
-                state_db.store(&source_state)?;
+    let source_files = Scanner::new(source_root).scan()?;
+    let dest_files = Scanner::new(dest_root).scan()?;
 
-                let dest_state = SyncState {
-                    path: dest.relative_path.clone(),
-                    side: Side::Dest,
-                    mtime: dest.modified,
-                    size: dest.size,
-                    checksum: None,
-                    last_sync: now,
-                };
-                state_db.store(&dest_state)?;
-            }
+    let dest_map: std::collections::HashMap<&Path, &crate::sync::scanner::FileEntry> = dest_files
+        .iter()
+        .filter(|e| !e.is_dir)
+        .map(|e| (e.relative_path.as_path(), e))
+        .collect();
+    let mut present: std::collections::HashSet<&Path> = dest_map.keys().copied().collect();
+
+    for s in source_files.iter().filter(|e| !e.is_dir) {
+        present.insert(s.relative_path.as_path());
+        let Some(d) = dest_map.get(s.relative_path.as_path()) else {
+            continue;
+        };
+        if !crate::bisync::classifier::same_content(s, d) {
+            continue;
+        }
+        for (side, entry) in [(Side::Source, s), (Side::Dest, *d)] {
+            state_db.store(&SyncState {
+                path: entry.relative_path.clone(),
+                side,
+                mtime: entry.modified,
+                size: entry.size,
+                checksum: None,
+                last_sync: now,
+            })?;
+        }
+    }
+
+    for path in prior_paths {
+        if !present.contains(path.as_path()) {
+            state_db.delete(path)?;
         }
     }
 
